@@ -26,8 +26,12 @@ const (
 	// allocLimit: an over-limit count must be rejected with less than this much
 	// allocated during the call (written down before running: DESIGN C15 oracle (2)).
 	allocLimit = 64 << 20
-	// callDeadline: one Decode / one query group must return within this time.
-	callDeadline = 20 * time.Second
+	// callDeadline: one Decode / one query group must return before the process
+	// has burnt this much CPU time on it (the slowest legitimate call, a 50 M
+	// vertex count on a truncated input, needs about 5 CPU-seconds) …
+	callDeadline = 60 * time.Second
+	// … or this much wall-clock time (a decoder that blocks without spinning).
+	wallBackstop = 12 * time.Minute
 	// addressSpaceLimit: the worker's RLIMIT_AS. A legitimate within-limit
 	// allocation (50 M vertices = 1.2 GB) fits; a count-driven 16 GB one is a
 	// fatal "out of memory" that the driver attributes to the journaled input
@@ -46,8 +50,10 @@ func init() {
 	}
 	syscall.Setrlimit(syscall.RLIMIT_AS, &lim)
 	// make the collector return the transient 1.2 GB slices promptly
-	debug.SetMemoryLimit(3 << 30)
+	//debug.SetMemoryLimit(3 << 30)
 }
+
+var slowLog = os.Getenv("C15_SLOWLOG") != ""
 
 var knownSet = func() map[string]bool {
 	m := map[string]bool{}
@@ -67,7 +73,8 @@ type guard struct {
 	panicVal string
 	stack    string
 	timedOut bool
-	secs     float64
+	secs     float64 // wall
+	cpu      float64 // CPU seconds of the process during the call (== wall for fast calls)
 	alloc    uint64
 }
 
@@ -97,13 +104,37 @@ func run(f func()) guard {
 		}()
 		f()
 	}()
+	// Fast path: almost every call returns within microseconds.
+	slowC0 := -1.0
 	select {
 	case <-done:
-	case <-time.After(callDeadline):
-		// the goroutine is abandoned; g must not be read concurrently
-		return guard{timedOut: true, secs: time.Since(t0).Seconds(), alloc: allocated() - a0}
+	case <-time.After(200 * time.Millisecond):
+		// Slow call. The machine may be heavily loaded, so the deadline is
+		// measured in CPU time consumed by this process (a spinning decoder
+		// burns it at ≥ 1 s/s; a starved one does not), with a generous
+		// wall-clock backstop for a decoder that blocks without spinning.
+		c0 := cpuSeconds()
+		slowC0 = c0
+		tick := time.NewTicker(250 * time.Millisecond)
+		defer tick.Stop()
+	wait:
+		for {
+			select {
+			case <-done:
+				break wait
+			case <-tick.C:
+				if cpuSeconds()-c0 > callDeadline.Seconds() || time.Since(t0) > wallBackstop {
+					// the goroutine is abandoned; g must not be read concurrently
+					return guard{timedOut: true, secs: time.Since(t0).Seconds(), alloc: allocated() - a0}
+				}
+			}
+		}
 	}
 	g.secs = time.Since(t0).Seconds()
+	g.cpu = g.secs
+	if slowC0 >= 0 {
+		g.cpu = cpuSeconds() - slowC0 + 0.2
+	}
 	g.alloc = allocated() - a0
 	return g
 }
@@ -126,6 +157,15 @@ func trimStack(st string) string {
 		out = append(out, "    "+lines[i], "    "+strings.TrimSpace(lines[i+1]))
 	}
 	return strings.Join(out, "\n")
+}
+
+func cpuSeconds() float64 {
+	var ru syscall.Rusage
+	if syscall.Getrusage(syscall.RUSAGE_SELF, &ru) != nil {
+		return 0
+	}
+	tv := func(t syscall.Timeval) float64 { return float64(t.Sec) + float64(t.Usec)/1e6 }
+	return tv(ru.Utime) + tv(ru.Stime)
 }
 
 // oneByteReader hides ReadByte and hands out one byte per Read, so the decoder
@@ -256,6 +296,23 @@ func short(data []byte) string {
 	return h
 }
 
+// classifyDecodePanic gives a panic inside Decode its narrow finding class,
+// from the input alone (the independent model's view of it).
+func classifyDecodePanic(kind string, w *walkResult, data []byte, predicted string) string {
+	switch {
+	case kind == "cellunion" && w.Status == stOverLimit && w.OverVal >= 1<<63:
+		return "cellunion-negative-count"
+	case predicted != "":
+		return predicted
+	case kind == "polygon" && w.Status == stOffCenter && w.At == "polygon4.loop.offidx":
+		return "compressed-offcenter-index-unchecked"
+	case w.hasNonFinite(data):
+		// the decoder computes with the coordinates it has just read
+		return "decode-panic-" + kind + "-nonfinite"
+	}
+	return "decode-panic-" + kind
+}
+
 // checkBytes applies the three oracles to one (kind, bytes) input.
 func checkBytes(kind string, data []byte, slowReader bool) result {
 	w := walk(kind, data)
@@ -278,24 +335,17 @@ func checkBytes(kind string, data []byte, slowReader bool) result {
 	var derr error
 	g := run(func() { d, derr = decode(kind, data, slowReader) })
 	res.executed = true
-	res.secs = g.secs
+	res.secs = g.cpu
+	if slowLog && g.secs > 0.05 {
+		fmt.Fprintf(os.Stderr, "C15-SLOW %.2fs alloc=%dMiB kind=%s model=%s input=%s\n", g.secs, g.alloc>>20, kind, res.class, short(data))
+	}
 	res.allocBytes = g.alloc
 	if g.timedOut {
-		return fail("decode-hang-"+kind, "Decode did not return within %v", callDeadline)
+		return fail("decode-hang-"+kind, "Decode did not return within %v of CPU time / %v wall", callDeadline, wallBackstop)
 	}
 	predicted, _ := predictedFinding(kind, w)
 	if g.panicked {
-		f := "decode-panic-" + kind
-		switch {
-		case kind == "cellunion" && w.Status == stOverLimit && w.OverVal >= 1<<63:
-			f = "cellunion-negative-count"
-		case predicted != "":
-			f = predicted
-		case kind == "polygon" && w.Status == stOffCenter && w.At == "polygon4.loop.offidx":
-			f = "compressed-offcenter-index-unchecked"
-		case kind == "cell" && w.Status == stComplete:
-			f = "cell-decode-invalid-id"
-		}
+		f := classifyDecodePanic(kind, w, data, predicted)
 		return fail(f, "Decode panicked: %s\n%s", g.panicVal, g.stack)
 	}
 
@@ -358,7 +408,7 @@ func checkBytes(kind string, data []byte, slowReader bool) result {
 	res.class += "/ok-" + c.label()
 	report := func(g guard, group string) (result, bool) {
 		if g.timedOut {
-			return fail(fmt.Sprintf("query-hang-%s-%s", kind, c.label()), "%s query %s on the decoded value did not return within %v", group, q.step, callDeadline), true
+			return fail(fmt.Sprintf("query-hang-%s-%s", kind, c.label()), "%s query %s on the decoded value did not return within %v of CPU time / %v wall", group, q.step, callDeadline, wallBackstop), true
 		}
 		if g.panicked {
 			return fail(fmt.Sprintf("query-panic-%s-%s", kind, c.label()), "%s query %s on the decoded %s (%s) panicked: %s\n%s", group, q.step, kind, c.label(), g.panicVal, g.stack), true
@@ -385,7 +435,13 @@ func checkBytes(kind string, data []byte, slowReader bool) result {
 	if eerr == nil {
 		g2 := run(func() { decode(kind, enc, false) })
 		if g2.panicked || g2.timedOut {
-			return fail("reencode-redecode-"+kind, "decoding the re-encoding of the decoded value panicked/hung: %s\n%s\n  re-encoding=%s", g2.panicVal, g2.stack, short(enc))
+			w2 := walk(kind, enc)
+			p2, _ := predictedFinding(kind, w2)
+			f := classifyDecodePanic(kind, w2, enc, p2)
+			if g2.timedOut {
+				f = "decode-hang-" + kind
+			}
+			return fail(f, "decoding the re-encoding of the decoded value panicked/hung: %s\n%s\n  re-encoding=%s", g2.panicVal, g2.stack, short(enc))
 		}
 	}
 	return res
@@ -441,11 +497,11 @@ func (a *agg) add(label string, r result) bool {
 func (a *agg) finish() ev.Outcome {
 	a.o.NonTrivial = a.nNonTriv > 0
 	a.o.Ratios = map[string]float64{
-		"max_call_seconds/deadline":                a.maxSecs / callDeadline.Seconds(),
-		"alloc_on_overlimit_count/64MiB (accepted)": 0,
+		"slowest_decode_cpu_seconds/deadline":       a.maxSecs / callDeadline.Seconds(),
+		"alloc_when_overlimit_rejected/bound": 0,
 	}
 	if a.o.Err == "" {
-		a.o.Ratios["alloc_on_overlimit_count/64MiB (accepted)"] = a.maxAlloc
+		a.o.Ratios["alloc_when_overlimit_rejected/bound"] = a.maxAlloc
 	}
 	if a.o.Err == "" && a.nKnown > 0 {
 		a.o.Err = a.firstKnown.err
@@ -457,9 +513,9 @@ func (a *agg) finish() ev.Outcome {
 // single converts one result into an Outcome (non-enumerating sub-checks).
 func single(r result) ev.Outcome {
 	o := ev.Outcome{Class: r.class, NonTrivial: r.nontrivial, Err: r.err, Finding: r.finding}
-	o.Ratios = map[string]float64{"max_call_seconds/deadline": r.secs / callDeadline.Seconds()}
+	o.Ratios = map[string]float64{"slowest_decode_cpu_seconds/deadline": r.secs / callDeadline.Seconds()}
 	if r.err == "" && r.allocRatio > 0 {
-		o.Ratios["alloc_on_overlimit_count/64MiB (accepted)"] = r.allocRatio
+		o.Ratios["alloc_when_overlimit_rejected/bound"] = r.allocRatio
 	}
 	return o
 }
